@@ -224,4 +224,53 @@ theorem paraWrap_reread2 (cfg : WrapCfg) (p : ParaS) (more : Bool) (hwf : p.WF) 
   · rw [htext]; unfold parse; rw [lex_doc _ hd', parse_doc _ hd']
   · rw [mkDoc_items _ _ (fun z hz => (hzs z hz).1)]; rfl
 
+/-! ### a document consisting of one field; the old hypotheses imply the new ones -/
+
+/-- the document whose only paragraph has the one field `eo` -/
+def oneField (eo : EntryS) : DocS := { lead := [], paras := [(⟨eo, []⟩, [])] }
+
+/-- **a well-formed, fully terminated field on its own** is a document the strict reader accepts:
+    one paragraph holding exactly that field -/
+theorem entry_doc (eo : EntryS) (hwf : eo.WF) (hta : eo.TermAll) :
+    parse eo.str = ⟨.node .ROOT [.node .PARAGRAPH [eo.node]], []⟩
+      ∧ readStrict eo.str = .ok (.node .ROOT [.node .PARAGRAPH [eo.node]])
+      ∧ docItems (.node .ROOT [.node .PARAGRAPH [eo.node]]) = [[(eo.key, entryValue eo.node)]]
+      ∧ eo.node.text = eo.str := by
+  have hd : (oneField eo).WF := by
+    refine ⟨(by intro g hg; cases hg), trivial, ?_, ?_⟩
+    · intro pg hpg
+      simp only [oneField, List.mem_cons, List.not_mem_nil, or_false] at hpg
+      subst hpg
+      exact ⟨⟨hwf, (by intro i hi; cases hi)⟩, (by intro g hg; cases hg)⟩
+    · exact ⟨⟨termAll_term eo hta _, trivial⟩, Or.inl rfl, trivial⟩
+  have hstr : (oneField eo).str = eo.str := by
+    simp [oneField, DocS.str, gapsStr, ParaS.str]
+  have htree : (oneField eo).tree = .node .ROOT [.node .PARAGRAPH [eo.node]] := by
+    simp [oneField, DocS.tree, parasNodes, ParaS.node, itemsNodes]
+  have hparse : parse eo.str = ⟨.node .ROOT [.node .PARAGRAPH [eo.node]], []⟩ := by
+    rw [← hstr, ← htree]; unfold parse; rw [lex_doc _ hd, parse_doc _ hd]
+  refine ⟨hparse, by simp [readStrict, hparse], ?_, ?_⟩
+  · rw [← htree, docItems_tree]
+    simp [oneField, DocS.content, ParaS.content, EntryS.content, entryValue_node]
+  · have h1 := tokText_docToks _ hd
+    rw [hstr] at h1
+    rw [← tokText_leaves, ← h1]
+    simp [oneField, DocS.toks, gapsToks, parasToks, ParaS.toks, itemsToks, EntryS.node, leavesList_map_tk]
+
+/-- the hypothesis of `C07_control_reread` on an `Uploaders` field implies `UpOK` -/
+theorem upOK_of_goodLines (e : EntryS)
+    (h : e.key = kUploaders → ∃ L, GoodLines L ∧ fmtCommaLines kUploaders (rawText e) = Text.join ['\n'] L) :
+    UpOK e := by
+  intro hk
+  obtain ⟨L, hL, hfl⟩ := h hk
+  unfold hashLine
+  rw [hfl, ← tokText_joinNL, tokText_joinNL_split L hL.ne fun l hl => (hL.line l hl).1]
+  apply List.any_eq_false.2
+  intro l hl
+  rw [List.drop_one] at hl
+  obtain ⟨_, c, cs, rfl, hi⟩ := hL.line l (List.mem_of_mem_tail hl)
+  have := hL.nohash _ hl
+  simp only [List.dropWhile_cons, hi, Bool.false_eq_true, ↓reduceIte]
+  simpa using this
+
 end Deb822Verif.Ctl
